@@ -1,6 +1,7 @@
 package props
 
 import (
+	"strings"
 	"encoding/base64"
 	"encoding/json"
 	"fmt"
@@ -327,16 +328,76 @@ func c32JSON() *explore.Scenario {
 }
 
 func c32Scenarios(thorough bool) []*explore.Scenario {
-	return []*explore.Scenario{c32Dict(), c32JSON()}
+	return []*explore.Scenario{c32Dict(), c32JSON(), c32ReusedUnmarshaler()}
 }
 
 func init() {
 	register(&Prop{ID: "C32", Level: "exploration", Variant: "A", Scenarios: c32Scenarios,
 		Run: func(c *explore.Check, thorough bool) {
-			c.Rule = "every entry of every Dict*ValueIndexed table that has a Dict*NameIndexed sibling (pairs discovered from dicttls/*.go at check time): NameIndexed[ValueIndexed[v]] == v; every corpus ClientHello (all IDs, custom specs, spliced variants) that the documented JSON format can describe is rendered to JSON with the value-indexed tables, imported with UnmarshalJSON, applied and built, and compared (normalised: GREASE, per-connection parts masked) with the hello built from the raw-bytes import. distinct = table / hello"
+			c.Rule = "every entry of every Dict*ValueIndexed table that has a Dict*NameIndexed sibling (pairs discovered from dicttls/*.go at check time): NameIndexed[ValueIndexed[v]] == v; every corpus ClientHello (all IDs, custom specs, spliced variants) that the documented JSON format can describe is rendered to JSON with the value-indexed tables, imported with UnmarshalJSON, applied and built, and compared (normalised: GREASE, per-connection parts masked) with the hello built from the raw-bytes import; one caller-configured TLSExtensionsJSONUnmarshaler x 4 option sets x every sequence of <= 3 documents from a menu of 3 good and 3 refused ones: each step equals what a fresh unmarshaler with the same options makes of the document. distinct = table / hello"
 			c.Assumptions = []string{"JSON renderer (mc/props/c32.go) written from the documented format; hellos with elements the format cannot describe (e.g. ECH GREASE) are counted as not representable, not judged"}
 			runAll(c, c32Scenarios(thorough), 0)
 			c.Gate(c.Total.Counters["dict_entries"] > 500, "non-vacuity: %d dict entries", c.Total.Counters["dict_entries"])
 			c.Gate(c.Total.Counters["json_compared"] > 40, "non-vacuity: %d JSON comparisons", c.Total.Counters["json_compared"])
 		}})
+}
+
+// c32ReusedUnmarshaler — a caller-configured TLSExtensionsJSONUnmarshaler is a long-lived object:
+// what it makes of a document must not depend on the documents it saw (or refused) before. Every
+// sequence of <= 3 documents from a menu of good and refused ones x the 4 option sets, each step
+// compared with a fresh unmarshaler carrying the same options.
+func c32ReusedUnmarshaler() *explore.Scenario {
+	docs := []struct{ name, js string }{
+		{"sni+psk", `[{"name":"server_name"},{"name":"pre_shared_key","identities":[{"identity":[1,2,3],"obfuscated_ticket_age":7}],"binders":[[4,5,6]]}]`},
+		{"sni+encrypt_then_mac", `[{"name":"server_name"},{"name":"encrypt_then_mac"}]`},
+		{"refused:unknown-name", `[{"name":"server_name"},{"name":"no_such_extension_name"}]`},
+		{"refused:not-an-array", `{"name":"server_name"}`},
+		{"refused:bad-field", `[{"name":"supported_groups","named_group_list":17}]`},
+		{"plain", `[{"name":"server_name"},{"name":"supported_versions","versions":["TLS 1.3","TLS 1.2"]},{"name":"GREASE"}]`},
+	}
+	describe := func(u *tls.TLSExtensionsJSONUnmarshaler, err error) string {
+		if err != nil {
+			return "error"
+		}
+		var ts []string
+		for _, e := range u.Extensions() {
+			ts = append(ts, fmt.Sprintf("%T%+v", e, e))
+		}
+		return strings.Join(ts, ";")
+	}
+	return &explore.Scenario{
+		Name: "one-json-unmarshaler-across-documents",
+		Run: func(x *explore.X) (r explore.Result) {
+			opt := x.Choose("options", 4)
+			long := &tls.TLSExtensionsJSONUnmarshaler{AllowUnknownExt: opt&1 != 0, UseRealPSK: opt&2 != 0}
+			var hist []string
+			for step := 0; step < 3; step++ {
+				k := x.Choose("doc", len(docs)+1)
+				if k == 0 {
+					break
+				}
+				d := docs[k-1]
+				hist = append(hist, d.name)
+				var e1, e2 error
+				fresh := &tls.TLSExtensionsJSONUnmarshaler{AllowUnknownExt: opt&1 != 0, UseRealPSK: opt&2 != 0}
+				if pm := catch(func() { e1 = long.UnmarshalJSON([]byte(d.js)); e2 = fresh.UnmarshalJSON([]byte(d.js)) }); pm != "" {
+					r.Violate("C32|reused-unmarshaler|panic", "options=%d documents %v: %s", opt, hist, truncStr(pm, 200))
+					return
+				}
+				x.Transitions++
+				a, b := describe(long, e1), describe(fresh, e2)
+				if e1 != nil && e2 == nil || e1 == nil && e2 != nil || (e1 == nil && a != b) {
+					r.Violate("C32|reused-unmarshaler|differs-from-fresh", "options{AllowUnknownExt=%v UseRealPSK=%v} documents %v: the long-lived unmarshaler gives %s (err %v), a fresh one with the same options %s (err %v)", opt&1 != 0, opt&2 != 0, hist, truncStr(a, 200), e1, truncStr(b, 200), e2)
+					return
+				}
+				if long.AllowUnknownExt != (opt&1 != 0) || long.UseRealPSK != (opt&2 != 0) {
+					r.Violate("C32|reused-unmarshaler|options-changed", "documents %v: the caller's options were changed by an import", hist)
+				}
+			}
+			r.Obs = fmt.Sprintf("len%d|viol=%d", len(hist), len(r.Viol))
+			r.Nontrivial = len(hist) > 1
+			r.Class = fmt.Sprint(opt, hist)
+			return
+		},
+	}
 }
